@@ -1066,6 +1066,12 @@ class WorkerThread(Thread):
                         )
 
                     del result, exception
+                elif not self.loop.is_closed():
+                    # The call was cancelled before we got to it; report back anyway so
+                    # that this worker is returned to the pool of idle workers
+                    self.loop.call_soon_threadsafe(
+                        self._report_result, future, None, None
+                    )
 
                 self.queue.task_done()
                 del item, context, func, args, future, cancel_scope
